@@ -156,6 +156,44 @@ def corruptions(doc):
                 def ch_descr(d):
                     d.attrs["shortDescription"] = "a different description"
                 variants += [ch_abs, ch_entry, ch_descr]
+                # the duplicate differs only in how it hangs in the hierarchy: another base, no base, a base it did not have, an undefined
+                # base, other restriction criteria, no restriction criteria
+                orig = find_set(base, set_tag).children[i]
+                has_base = any(k.tag == "BaseContainer" for k in orig.children)
+                others = [c.attrs["name"] for c in find_set(base, "ContainerSet").children if c.attrs["name"] != name]
+
+                def _bc(d):
+                    return next(k for k in d.children if k.tag == "BaseContainer")
+                if has_base:
+                    cur = _bc(orig).attrs["containerRef"]
+                    alt = next((o for o in others if o != cur), None)
+                    if alt:
+                        variants.append(lambda d, alt=alt: _bc(d).attrs.__setitem__("containerRef", alt))
+                    variants.append(lambda d: d.children.remove(_bc(d)))
+                    variants.append(lambda d: _bc(d).attrs.__setitem__("containerRef", "UNDEFINED_NAME_X"))
+                    if _bc(orig).children:
+                        variants.append(lambda d: _bc(d).children.clear())
+
+                        def ch_crit(d):
+                            for e in walk(_bc(d)):
+                                if e.tag == "Comparison":
+                                    e.attrs["value"] = e.attrs["value"] + "9"
+                                    return
+                                if e.tag == "Value" and e.text is not None:
+                                    e.text = e.text + "9"
+                                    return
+                            for e in walk(_bc(d)):   # a comparison of two parameters: the other relation
+                                if e.tag == "ComparisonOperator":
+                                    e.text = "!=" if e.text == "==" else "=="
+                                    return
+                        variants.append(ch_crit)
+                    else:
+                        variants.append(lambda d: _bc(d).children.append(El("RestrictionCriteria", children=[El("Comparison", {"parameterRef": "PKT_APID", "value": "77"})])))
+                elif others:
+                    def ch_addbase(d, ref=others[0]):
+                        idx = next(j for j, k in enumerate(d.children) if k.tag == "EntryList")
+                        d.children.insert(idx, El("BaseContainer", {"containerRef": ref}))
+                    variants.append(ch_addbase)
                 # an entry of the duplicate refers to the CONTAINER of a name where the original refers to the PARAMETER of that name (names
                 # shared across kinds): same entry names, another layout
                 cont_names = {c.attrs["name"] for c in find_set(base, "ContainerSet").children}
